@@ -256,8 +256,14 @@ theorem lock_analysis_clean : problems = [] := by decide
 Helios struct is to an unshared object, atomic where the field is atomic, a read of a field
 never written after publication, or made while certainly holding the field's guard — in write
 mode for a write. These are the hypotheses `lockset_sound` needs, row by row. -/
-theorem accesses_guarded : accessChunks.all (fun c => c.all (Access.ok policy)) = true := by
+theorem accesses_guarded : accessChunks.all (fun c => c.all (Access.ok (policy initFuncs))) = true := by
   decide +kernel
+
+/-- the functions the policy lets write package-level registries are called only by `init`
+functions and never escape as values: those writes happen before `main` starts -/
+theorem init_writers_called_from_init :
+    globalWriterCallers.all (fun r => !initWriters.contains r.1 ||
+      (!r.2.2 && r.2.1.all (fun c => initFuncs.contains c))) = true := by decide +kernel
 
 /-- every mutex in the source has a rank -/
 theorem lock_classes_ranked : lockClasses.all (fun c => (rankOf c).isSome) = true := by decide +kernel
@@ -272,12 +278,13 @@ theorem no_callback_under_lock : dynamicCallsUnderLock = [] := by decide
 
 /-- the only function that releases a lock taken by its caller is the breaker's notifier -/
 theorem caller_releases_known :
-    callerLockReleases = ["internal/circuitbreaker.CircuitBreaker.unlockAndNotify:CircuitBreaker.mutex"] := by
+    callerLockReleases.all (fun c =>
+      ["internal/circuitbreaker.CircuitBreaker.unlockAndNotify:CircuitBreaker.mutex"].contains c) = true := by
   decide
 
 /-- function literals analysed as running synchronously are arguments of these callees only -/
 theorem sync_literals_known :
-    syncLiteralCallees = ["lb.circuitBreaker.Execute", "rl.buckets.Range"] := by
+    syncLiteralCallees.all (fun c => ["lb.circuitBreaker.Execute", "rl.buckets.Range"].contains c) = true := by
   decide
 
 end Helios.Facts
